@@ -315,6 +315,25 @@ class ServerDriver:
                         outer[k1] = _copy(v1)
                         async with sio.session(sid_, namespace=ns_) as inner:
                             inner[k2] = _copy(v2)
+            elif k == 'session_span':
+                # a long session() block spanning two short ones for the same client:
+                #   with session as L: (with session as a: a[k1]=v1) (with session as b: b[k2]=v2) L[k0]=v0
+                _, sid_, ns_, k1, v1, k2, v2, k0, v0 = o
+                self.trace.append(('NestedStart',))
+                if self.mode == 'sync':
+                    with sio.session(sid_, namespace=ns_) as long_:
+                        with sio.session(sid_, namespace=ns_) as a_:
+                            a_[k1] = _copy(v1)
+                        with sio.session(sid_, namespace=ns_) as b_:
+                            b_[k2] = _copy(v2)
+                        long_[k0] = _copy(v0)
+                else:
+                    async with sio.session(sid_, namespace=ns_) as long_:
+                        async with sio.session(sid_, namespace=ns_) as a_:
+                            a_[k1] = _copy(v1)
+                        async with sio.session(sid_, namespace=ns_) as b_:
+                            b_[k2] = _copy(v2)
+                        long_[k0] = _copy(v0)
             elif k == 'session_replace':
                 # with session(sid) as s: s.clear(); s.update(new)  -- keys are REMOVED inside the block
                 if self.mode == 'sync':
@@ -379,6 +398,10 @@ def run_history(cfg, ops, mode='sync', coro=False):
                 rest = [e for e in effs if e != ('NestedStart',)]
                 out.append((rest, tbl))
                 out.append((rest, tbl))
+            elif o[0] == 'session_span':
+                # model: the three assignments one after the other (k1, k2, k0)
+                rest = [e for e in effs if e != ('NestedStart',)]
+                out.extend([(rest, tbl)] * 3)
             elif o[0] == 'msg_nested':
                 # In the model the nested delivery is the same message delivered right after: the
                 # callback invocation is the last thing _handle_ack does (tail position), so the
